@@ -127,6 +127,9 @@ func (c04) Gen(r *simrt.Rand, idx int, tier string) *Case {
 		c.Sub = "mutant:" + mutate(r, c.J)
 	}
 	c.L = RandLayout(r, c.J, 6)
+	if r.P(0.15) && c.L.AddDiamond(r, c.J) {
+		c.Sub += "+diamond" // a file of prices/assertions included from two places
+	}
 	c.Today = "2030-01-01"
 	c.Scheds = []Sched{RandSched(r), RandSched(r)}
 	return c
